@@ -557,6 +557,7 @@ order_case!(c02_order_k7, 7);
 #[kani::stub(crate::injector_core::linuxapi::__clear_cache, os::flush)]
 #[kani::stub(crate::injector_core::common::allocate_jit_memory, allocate_jit_memory_contract)]
 #[kani::stub(std::thread::panicking, ghost_panicking)]
+#[kani::stub(crate::verif_rt::event_hook, mon_event)]
 fn c05_dropglue_panicking() {
     unsafe {
         PANICKING = false;
@@ -580,6 +581,7 @@ fn c05_dropglue_panicking() {
         kani::assume(j < A);
         assert!(os::MEM[j] == SNAPSHOT[j], "OBL:C05.dropglue.restores: unwinding restores every faked function");
         assert!(os::live_count() == 0 && os::N_MUNMAP == 1, "OBL:C05.dropglue.releases: unwinding releases every trampoline");
+        assert!(MON_SEEN[2] == 1 && MON_SEEN[1] >= 2, "OBL:C04.unwind.restore-inside: the restoration done by unwinding went through the lock monitor (every step happened while the guard was still held)");
         assert!(!lock_held(), "OBL:C05.dropglue.unlocks: unwinding releases the process-wide guard");
     }
     let again = InjectorPP::new();
